@@ -8,6 +8,8 @@ use crate::out::{PropResult, Violation, J};
 use crate::par::HangReport;
 
 pub mod c05;
+pub mod c06;
+pub mod c07;
 
 pub struct Ctx {
     pub prop: String,
